@@ -181,7 +181,7 @@ theorem lookupNamed_spec (c : Ctx) (hc : c.Inv) (n : Name) (t : Ty) (hn : validT
     have hin := hc.range _ _ hlk
     have hmem : Ty.named n t ∈ c.byID := hin.2.resolve_right (by simp [Ty.isComplex])
     rw [lookupNamed_hit c n t _ hn hlk]
-    refine ⟨rfl, ⟨hc.nodup, hc.wf, hc.total, hc.sound, hc.range, ?_⟩, rfl, fun u h => h, hin⟩
+    refine ⟨rfl, ⟨hc.nodup, hc.wf, hc.total, hc.sound, hc.range, ?_, hc.tvcanon, hc.tvtotal⟩, rfl, fun u h => h, hin⟩
     intro m u hl
     simp only [bind, lookup_cons_name] at hl
     by_cases e : m = n
@@ -193,7 +193,7 @@ theorem lookupNamed_spec (c : Ctx) (hc : c.Inv) (n : Name) (t : Ty) (hn : validT
     rw [lookupNamed_miss c n t hn hlk]
     -- entering with the rebinding already made
     have hent := enter_inv c hc (.named n t) wt rfl hlk
-    refine ⟨rfl, ⟨hent.nodup, hent.wf, hent.total, hent.sound, ?_, ?_⟩, rfl, ?_, ?_⟩
+    refine ⟨rfl, ⟨hent.nodup, hent.wf, hent.total, hent.sound, ?_, ?_, hent.tvcanon, hent.tvtotal⟩, rfl, ?_, ?_⟩
     · intro k u hl; exact hent.range k u hl
     · intro m u hl
       simp only [enter, bind, lookup_cons_name] at hl
